@@ -8,7 +8,6 @@ CONSTANTS
 INVARIANT AllValid
 INVARIANT Compositional
 INVARIANT ImplLossless
-INVARIANT ImplOKOffHazards
-INVARIANT HazardLocal
+INVARIANT ImplOK
 INVARIANT Publish
 CHECK_DEADLOCK FALSE
